@@ -344,6 +344,11 @@ def gen_instance(rng, *, d=None, k=None, N=None, vtype="sympy", fdkind=None,
             inst["fd_blocks"] if inst["fdkind"] == "tuple" else [])}), {}
         if not well_posed(inst):
             raise Regenerate("corner instance ill posed")
+    if dyadic and not dyadic_gaps(inst):
+        # float instances are compared EXACTLY: every eliminated gap must be +-2^k (or i times that);
+        # corner strata re-assign levels after the random zero-block choice and could otherwise
+        # produce a gap of 3 (seed 6 of the sweep: a false alarm of rounding, repaired here)
+        raise Regenerate("non-dyadic eliminated gap")
     if all(epair(e) == (0, 0) for e in inst["E"]):
         # H_0 = 0 is refused up front by block_diagonalize ("The diagonal of the unperturbed Hamiltonian
         # may not be zero"): not an accepted input, so not in the scope of C01-C05 / C13-C15
@@ -391,6 +396,28 @@ def keep_pattern(inst):
             else:
                 keep[i, j] = True
     return keep, E
+
+
+def dyadic_gaps(inst):
+    """Every eliminated pair has an energy difference whose real and imaginary parts are 0 or +-2^k."""
+    keep, E = keep_pattern(inst)
+    d = inst["d"]
+
+    def pow2(x):
+        x = abs(Fraction(x))
+        if x == 0:
+            return True
+        n, m = x.numerator, x.denominator
+        return (n & (n - 1)) == 0 and (m & (m - 1)) == 0
+
+    for i in range(d):
+        for j in range(d):
+            if not keep[i, j]:
+                a, b = epair(E[i]), epair(E[j])
+                re, im = a[0] - b[0], a[1] - b[1]
+                if not (pow2(re) and pow2(im)) or (re != 0 and im != 0 and abs(re) != abs(im)):
+                    return False
+    return True
 
 
 def well_posed(inst):
